@@ -15,7 +15,7 @@ import numpy as np
 
 from harness import classify, progcheck as PC, programs as P
 
-KNOWN = ("swv-layout-drift", "take-through-broadcast", "minmax-zero-size")
+KNOWN = ("swv-layout-drift", "take-through-broadcast", "minmax-zero-size", "slice-through-generic-blockwise")
 
 
 def rechunked_variant(rng, prog):
@@ -32,8 +32,9 @@ def lean_correspondence(ctx, progs):
     import dask_array as da  # noqa: F401
 
     reqs = []
+    by_req = {}
     for prog, want in progs:
-        tok = PC.encode(prog)
+        tok = PC.encode(prog, {k: v.shape for k, v in P.run_np(prog).items()})
         if tok is None:
             ctx.notes["outside_mini_language"] = ctx.notes.get("outside_mini_language", 0) + 1
             continue
@@ -43,6 +44,7 @@ def lean_correspondence(ctx, progs):
         x = env[prog[-1]["out"]]
         if any(np.isnan(c) for ax in x.chunks for c in ax):
             continue
+        by_req[tok] = prog
         reqs.append((f"ex.eval {tok}", "ok " + PC.f_arr(want)))
         reqs.append((f"ex.chunks {tok}", "ok " + PC._f_ll([list(c) for c in x.chunks]) if x.ndim else "ok -"))
     if not reqs:
@@ -57,6 +59,7 @@ def lean_correspondence(ctx, progs):
             ctx.notes["model_declined"] = ctx.notes.get("model_declined", 0) + 1
             continue
         live.append((req, impl))
+    ctx.extra["_by_req"] = by_req
     ctx.correspond("expr(den,chunks)", live, branch_key=lambda req, model: (req.split()[0], req.count(";"), tuple(sorted({s.split("~")[0] for s in req.split()[1].split(";")}))))
 
 
@@ -110,8 +113,15 @@ def run(ctx, replay=None):
                 w = P.run_np(small)[small[-1]["out"]]
                 f2 = PC.check_values(ctx, small, w, opt) or f
                 ctx.fail(f2["sig"], {"program": small, **f2}, "dask_array program differs from NumPy")
-        if i % 4 == 0:
+        if i % 8 == 0:
             corr.append((prog, want))
         if i < 3:
             ctx.sample({"program": prog, "result_shape": list(want.shape)})
+    # a second stream restricted to the ops of the Lean mini-language (high model coverage)
+    for i in range(ctx.scale(250, 3000)):
+        prog, g = P.gen_program(rng, depth=rng.randint(2, maxdepth), ops=P.MINI_OPS, zero_axes=0.0, basic_only=True, maxrank=3)
+        corr.append((prog, g.env[prog[-1]["out"]]))
     lean_correspondence(ctx, corr)
+    by_req = ctx.extra.pop("_by_req", {})
+    for d in ctx.disagreements:
+        d["program"] = by_req.get(d["request"].split(" ", 1)[1])
